@@ -124,7 +124,14 @@ def run_lists(ctx, outer, first_len):
 
 
 def cubes_lists(tier, seed):
-    return c01.cubes_lists(tier, seed)
+    # five leaf kinds per entry here (three in C01): outer 3 x inner 3 does
+    # not finish within the cube budget
+    mo, mi = (2, 2) if tier == 'quick' else (2, 3)
+    out = [{'outer': 0, 'first_len': [0, mi]}]
+    for o in range(1, mo + 1):
+        for fl in range(0, mi + 1):
+            out.append({'outer': o, 'first_len': [fl, mi]})
+    return out
 
 
 LEAF_KINDS = ['sym:%d', 'role:r%d', 'rule:n%d', 'a.b%d:%%(x)s',
